@@ -133,7 +133,7 @@ def tlc(module, cfg, workers=4, timeout=600, env=None, coverage=False, extra=(),
         cmd += ["-depth", str(depth)]
     if seed is not None:
         cmd += ["-seed", str(seed)]
-    cmd += list(extra) + [module + ".tla"]
+    cmd += ["-noGenerateSpecTE"] + list(extra) + [module + ".tla"]
     t0 = time.time()
     rc, out = sh(cmd, timeout=timeout, env=env, cwd=SPEC)
     wall = time.time() - t0
